@@ -15,7 +15,7 @@ import (
 
 type c07Params struct {
 	IDRel string // local id lt | gt | eq remote id
-	ASRel string // local AS lt | gt remote AS
+	ASRel string // local AS lt | gt remote AS (lt4 | gt4: both above 65535)
 	Mode  string // ordered | simul | estfirst | race-ka | race-close | race-bad | race-est
 	First string // which connection's OPEN is sent first: out | in
 	Late  bool   // the inbound connection arrives before the outbound dial completes
@@ -41,8 +41,13 @@ func c07World(t *testing.T, p c07Params) rt.Result {
 		rid = lid
 	}
 	las, ras := uint32(65001), uint32(65002)
-	if p.ASRel == "gt" {
+	switch p.ASRel {
+	case "gt":
 		ras = 65000
+	case "lt4": // 4-octet AS numbers: the OPEN's 2-octet field carries AS_TRANS (23456), below both
+		las, ras = 70000, 80000
+	case "gt4":
+		las, ras = 80000, 70000
 	}
 	dominant := lid > rid || (lid == rid && las > ras)
 	survivor := "in"
@@ -291,7 +296,7 @@ func c07World(t *testing.T, p c07Params) rt.Result {
 func TestC07(t *testing.T) {
 	c := rt.Get()
 	modes := []string{"ordered", "simul", "estfirst", "race-est", "race-ka", "race-close", "race-bad", "race-new"}
-	rel := [][2]string{{"lt", "lt"}, {"gt", "lt"}, {"eq", "lt"}, {"eq", "gt"}, {"lt", "gt"}, {"gt", "gt"}, {"far-lt", "lt"}, {"far-gt", "lt"}, {"far-lt", "gt"}, {"far-gt", "gt"}}
+	rel := [][2]string{{"lt", "lt"}, {"gt", "lt"}, {"eq", "lt"}, {"eq", "gt"}, {"lt", "gt"}, {"gt", "gt"}, {"far-lt", "lt"}, {"far-gt", "lt"}, {"far-lt", "gt"}, {"far-gt", "gt"}, {"eq", "lt4"}, {"eq", "gt4"}}
 	seeds := c.N(48, 3000)
 	idx := 0
 	for _, rl := range rel {
